@@ -39,6 +39,11 @@ Theorem C18_updated_flag : updated_flag_stmt.
 Proof. exact updated_flag. Qed.
 Print Assumptions C18_updated_flag.
 
+(* C13 for the device list: the requests depend on elapsed time only (finding D-20 repaired) *)
+Theorem C18_pacing_shift : pacing_shift_stmt.
+Proof. exact pacing_shift. Qed.
+Print Assumptions C18_pacing_shift.
+
 (* non-vacuity: a history with a takeover and the return of the displaced device satisfies the hypothesis of the restricted statement,
    its mirror holds both devices, and the list answers for them *)
 Example C18_nonvacuous :
@@ -47,9 +52,13 @@ Example C18_nonvacuous :
   (exists st, run nv_hist init_state = Ok st /\ by_name st 4660 = Ok (Some 5) /\ by_name st 13907095858110791681 = Ok (Some 10) /\
      exists e, entry_at st 5 = Ok (Some e) /\ e_pi e = s_reported (match s_prod wit_piB with Some p => p | None => pi_clear end) /\
                pgn_list (e_tx e) = Ok (Some [126464; 126996]) /\
-               conf_str e (e_man e) = Ok (Some [77]) /\ conf_str e (e_d1 e) = Ok (Some [68; 101; 115; 99; 32; 111; 110]) /\ conf_str e (e_d2 e) = Ok None).
+               conf_str e (e_man e) = Ok (Some [77]) /\ conf_str e (e_d1 e) = Ok (Some [68; 101; 115; 99; 32; 111; 110]) /\ conf_str e (e_d2 e) = Ok None) /\
+  (* the D-20 witness: claim, then traffic every 1001 ms: product information is requested from the second message on, from the origin
+     0x80010000 (shift by 2^31 + 60536) as from origin 5000 *)
+  run_log (shift 2147544184 d20_hist) init_state = run_log d20_hist init_state /\
+  run_log d20_hist init_state = Ok [[]; [(10, 126996)]; [(10, 126996)]; [(10, 126996)]; [(10, 126996)]; [(10, 126998)]].
 Proof.
-  split; [exact nv_no_return|]. split; [vm_compute; reflexivity|].
+  split; [exact nv_no_return|]. split; [vm_compute; reflexivity|]. split; [|split; vm_compute; reflexivity].
   destruct (run nv_hist init_state) as [st| |] eqn:E; [|vm_compute in E; discriminate|vm_compute in E; discriminate].
   exists st. split; [reflexivity|]. vm_compute in E. injection E as <-. split; [vm_compute; reflexivity|]. split; [vm_compute; reflexivity|].
   eexists. split; [vm_compute; reflexivity|]. repeat split; vm_compute; reflexivity.
